@@ -442,7 +442,9 @@ def make_twins(cases, rng, want, maxlen, allowed=None):
                 runs = [m for m in HEXRUN.finditer(a) if (m.end() - m.start()) % 2 == 0 or True]
                 kinds = ["cross"]
                 if a.isdigit() and len(a) < 25:
-                    kinds += ["step", "step", "step"]
+                    # numbers move by one only: a number taken from another case can turn a count, a range bound or a size into
+                    # a request for billions of table rows
+                    kinds = ["step"]
                 if runs and not (a.isdigit() and len(a) < 25):
                     kinds += ["flip", "flip-late", "flip-early", "flip"]
                     if any(m.end() - m.start() >= 128 for m in runs):
